@@ -15,16 +15,22 @@
    C18_hashtable_coverage - present throughout => returned, exactly once when only removals happened (MapHashProofs6.v);
    C18_hashtable_returns_present - only present entries are returned.  With these C18 is proved in full for the
    pointer-level hashtable model.
-   SKIPLIST: PARTIAL - proved are (1) the witnesses no longer fail, (2) on layer A (MapRefModel.v, run
-   against the library on every check) an iterator only ever returns entries that are present, with their
-   current value, and nothing after it reported the end, (3) C17's theorems, which cover traversals abandoned via
-   the callback.  MISSING (checked only by the ASan / monitor / correspondence run over generated interleavings):
-   unreachability of the error state of layer B for all interleavings; "present throughout => returned (exactly
-   once under removals only)"; dictionary behaviour once the iterators are gone, for histories with caller-held
-   iterators. *)
+   SKIPLIST, repaired code: C18_skiplist_memory_safe - for ALL histories (every interleaving of iterator
+   create/next/free with put/get/rm/count/foreach/notify/destroy, any number of iterators, next after the end,
+   abandoned iterators, every sequence of random() answers) the pointer-level model never reaches an error state
+   (MapSkipProofs3.v; invariant: [SGood] of MapSkipProofs2.v - sorted level-0 chain, every level chain the filtered
+   sub-chain, forward arrays owned exclusively - with reference count = 1 + parked iterators for linked nodes and
+   the header, and the removed nodes that iterators still hold kept allocated, marked level -1, unlinked, owning
+   their forward array, reference count = parked iterators >= 1).
+   C18_skiplist_survivors_dictionary - after any history, once all iterators are freed, the list is a dictionary of
+   the surviving entries, and no removed node is still allocated (MapSkipProofs4.v).
+   SKIPLIST, still PARTIAL: "present throughout => returned (exactly once under removals only)" for caller-held
+   iterators is proved on layer A only (MapRefModel.v, run against the library on every check: an iterator only ever
+   returns entries that are present, with their current value, and nothing after it reported the end) and checked by
+   the ASan / monitor / correspondence run over generated interleavings. *)
 From Coq Require Import ZArith List NArith Bool.
 Require Import Verif.gen.Consts_map Verif.MapSpec Verif.MapHashModel Verif.MapSkipModel Verif.MapRefModel
-  Verif.MapRefProofs Verif.MapHashProofs Verif.MapHashProofs2 Verif.MapHashProofs3 Verif.MapHashProofs4 Verif.MapHashProofs5 Verif.MapHashProofs6 Verif.MapSkipProofs.
+  Verif.MapRefProofs Verif.MapHashProofs Verif.MapHashProofs2 Verif.MapHashProofs3 Verif.MapHashProofs4 Verif.MapHashProofs5 Verif.MapHashProofs6 Verif.MapSkipProofs Verif.MapSkipProofs2 Verif.MapSkipProofs3 Verif.MapSkipProofs4.
 Import ListNotations.
 
 (* hashtable: put a; iterator parked on a; rm a; get a (still answers 1); rm a again (succeeds, frees the node);
@@ -135,6 +141,49 @@ Theorem C18_skiplist_witness_fixed :
   nth 10 (map fst (fst (k_run kv_fixed k_create k_wit18b))) OIgnored = ONext (Some (MapSkipProofs.kd, 4%N)).
 Proof. exact skip_c18_witness_fixed. Qed.
 Print Assumptions C18_skiplist_witness_fixed.
+
+(* skiplist, repaired code, pointer level: NO history reaches an error state (use after free of a node or of a forward
+   array, double free, reference-count underflow, NULL dereference, exhausted fuel), whatever the random() answers *)
+Theorem C18_skiplist_memory_safe : forall ops, snd (k_run kv_fixed k_create ops) = None.
+Proof. exact skip_c18_no_error. Qed.
+Print Assumptions C18_skiplist_memory_safe.
+
+(* the same from any state satisfying the invariant, and the invariant is preserved by every API call *)
+Theorem C18_skiplist_memory_safe_from : forall ops s, KTop s -> snd (k_run kv_fixed s ops) = None.
+Proof. exact skip_c18_no_error_from. Qed.
+Print Assumptions C18_skiplist_memory_safe_from.
+
+Theorem C18_skiplist_invariant_step : forall rc s o orc, KTop s ->
+  exists s' x ns, k_step kv_fixed rc s o orc = Ok (s', x, ns) /\ KTop s'.
+Proof. exact skip_step_safe. Qed.
+Print Assumptions C18_skiplist_invariant_step.
+
+(* non-vacuity: put b; iterator stops on b; rm b - the node stays allocated, marked removed, held by the iterator alone *)
+Example C18_skiplist_invariant_example :
+  match k_state_after kv_fixed k_create [(Put MapSkipProofs.kb 1%N, lvl0); (IterCreate 0 None, []); (IterNext 0, []); (Rm MapSkipProofs.kb, [])] with
+  | Ok s => k_iters s = [(0, Some 1)] /\ k_length s = 0%Z /\
+            exists n, dnode s 1 = Ok n /\ sn_level n = (-1)%Z /\ sn_ref n = 1 /\ sn_key n = Some MapSkipProofs.kb
+  | Err _ => False
+  end.
+Proof. exact skip_c18_example_state. Qed.
+
+(* skiplist: after ANY history from the empty list - iterators created, advanced, abandoned mid-way, entries removed
+   and added under them - once every iterator has been freed: the entries are in strictly ascending key order and
+   every further iterator-free history runs in lock step with the dictionary specification started from exactly the
+   surviving entries (outputs and notifier calls equal, no error) *)
+Theorem C18_skiplist_survivors_dictionary : forall ops1 s,
+  k_state_after kv_fixed k_create ops1 = Ok s -> k_iters s = [] -> k_alive s = true ->
+  exists C0, s_dict (spec_of (kabs s C0)) = live_kv (kabs s C0) /\
+    Sorted.StronglySorted (fun a b => key_ltb (fst a) (fst b) = true) (live_kv (kabs s C0)) /\
+    forall rc ops2, no_iter_ops_k ops2 = true -> ks_lockstep rc s C0 (spec_of (kabs s C0)) ops2.
+Proof. exact skip_c18_survivors. Qed.
+Print Assumptions C18_skiplist_survivors_dictionary.
+
+(* ... and the structure is then exactly a C17 skiplist: all reference counts 1, no removed node still allocated *)
+Theorem C18_skiplist_survivors_invariant : forall ops1 s,
+  k_state_after kv_fixed k_create ops1 = Ok s -> k_iters s = [] -> k_alive s = true -> exists C0, SGood17 s C0.
+Proof. exact skip_c18_survivors_invariant. Qed.
+Print Assumptions C18_skiplist_survivors_invariant.
 
 (* layer A, every state, every iterator position: what iter_next returns is a present entry with its current value
    ("no key that was never present is returned") *)
